@@ -254,7 +254,7 @@ def extract(ctx, cls, mode):
     if f is None:
         raise AnalysisError('anchor vanished: %s.%s' % (cls, mode))
     ctx.functions.add('types:%s.%s' % (dc, mode))
-    se = symx.SymExec(prog, cls)
+    se = symx.SymExec(prog, cls, boundary=True)
     env = {'volume': V, 'time': symx.possym('time')}
     for a in f.args.args[1:]:
         env.setdefault(a.arg, sp.Symbol(a.arg, real=True))
@@ -322,9 +322,25 @@ def check_formulas(ctx, cls, roles):
             if 'stochastic' in mode:
                 got, exp = erase_max0(got), erase_max0(exp)
             ok, wit = symx.equal(got, exp)
+            detail = 'body executed: %s.%s returns %s%s' % (dc, mode, got, '; witness %s' % wit if wit else '')
+            # boundary of the state domain: states are non-negative, the symbols above are positive.  A branch taken only at
+            # state == 0 (`if X <= 0: return ...`) is compared with the closed form at 0, one state entry at a time.
+            if ok and not csub and not vsub and any(c2.conds for c2 in cases):
+                atoms = sorted({a for c2 in cases for a in (c2.value.atoms(sp.Function) | set().union(*[cd.atoms(sp.Function) for cd, _ in c2.conds
+                                if isinstance(cd, sp.Basic)] or [set()])) if a.func == STATE}, key=str)
+                for a in atoms:
+                    z = {a: sp.Integer(0)}
+                    cb = select_case(cases, z)
+                    gb, eb = cb.value.xreplace(z), expected.xreplace(z)
+                    if 'stochastic' in mode:
+                        gb, eb = erase_max0(gb), erase_max0(eb)
+                    okb, witb = symx.equal(gb, eb)
+                    if not okb:
+                        ok = False
+                        detail = 'at %s = 0 the body returns %s, the closed form gives %s%s' % (a, gb, eb, '; witness %s' % witb if witb else '')
+                        break
             ctx.ob('R1.1-formula', '%s/%s/%s' % (cls, MODE_NAME[mode], scn), ok, where,
-                   '%s rate of %s (%s) must equal %s' % (MODE_NAME[mode], cls, scn, exp),
-                   'body executed: %s.%s returns %s%s' % (dc, mode, got, '; witness %s' % wit if wit else ''))
+                   '%s rate of %s (%s) must equal %s' % (MODE_NAME[mode], cls, scn, exp), detail)
 
 
 def multisets(max_order=4, max_n=3):
@@ -574,6 +590,23 @@ def check_lineage_loops(ctx):
         ctx.ob('R1.4-iface-loop', 'lineage/%s/compute_lineage_propensities' % cls, not problems, where,
                'every reaction r and every lineage event e: dest[r] / dest[num_reactions+e] = its stochastic volume propensity at (state, params, volume, time)',
                '; '.join(problems))
+
+
+def reemit(ctx, rule, want_mode, slots):
+    """Run all of C01 and re-emit, under `rule`, the obligations another property rests on: the closed forms of one evaluation mode
+    (`want_mode` = 'deterministic' | 'stochastic' | 'volume' | 'stochastic+volume'), the key-to-index binding and reactant multiset
+    of every class, the type dispatch, and the interface loops that fill the propensity buffer through `slots`."""
+    from ..core import SubCtx
+    sub = SubCtx(ctx)
+    check(sub)
+    n = 0
+    for r, key, ok, where, what, detail in sub.got:
+        take = (r == 'R1.1-formula' and ('/%s/' % want_mode in key or key.endswith('/' + want_mode))) or r in ('R1.2-binding', 'R1.3-dispatch') or \
+            (r == 'R1.4-iface-loop' and key.split('/')[-1] in slots)
+        if take:
+            ctx.ob(rule, '%s/%s' % (r, key), ok, where, what, detail)
+            n += 1
+    return n
 
 
 def check(ctx):
